@@ -15,7 +15,7 @@ LEVEL_NOTE = ("Lean theorems: lin_statistics + stat_linear (after any history ev
               "independent numpy.linalg.solve oracle only. Tied to /repo by the correspondence (d in 1..3, m in 1..5, exact "
               "rationals vs floats at 1e-7) and by the twin against ridge regression on the raw history.")
 
-PROFILE = {"big_rate": 0.012, "big_small_batches": True, "name": "C02", "lp": G.LIN_KINDS, "np": [None], "dims": [1, 1, 2, 3],
+PROFILE = {"dead_feature": True, "big_rate": 0.012, "big_small_batches": True, "name": "C02", "lp": G.LIN_KINDS, "np": [None], "dims": [1, 1, 2, 3],
            "weights": {"fit": 1, "pfit": 3, "query": 4, "add": 1.5, "rem": 0.7, "warm": 0.5}, "query_sizes": [1, 2, 3, 5],
            "allow_scale": True}
 
